@@ -88,6 +88,29 @@ structure PyWit where
   stack : List Bytes
 deriving Repr, Inhabited
 
+/-- a `Transaction` object: the constructor's parameters in order -/
+structure PyTx where
+  inputs : List PyTxIn
+  outputs : List PyTxOut
+  locktime : Bytes
+  version : Bytes
+  has_segwit : Bool
+  witnesses : List PyWit
+deriving Repr, Inhabited
+
+/-- the `size` bytes that `struct.unpack_from(fmt, buf, offset)` reads: a negative offset counts from the end (and must not reach before
+the start); fewer than `size` bytes left is `struct.error` -/
+def bufAt (buf : Bytes) (offset : Int) (size : Nat) : Except PyErr Bytes :=
+  let off : Int := if offset < 0 then offset + buf.length else offset
+  if off < 0 then .error .structError
+  else if (buf.length : Int) - off < size then .error .structError
+  else .ok ((buf.drop off.toNat).take size)
+
+/-- `struct.unpack_from(f'{n}s', buf, offset)[0]`: a negative count is not a format (`struct.error`); a count beyond the buffer fails like
+any short read (CPython raises `struct.error` for sizes it cannot even represent) -/
+def unpackFromS (n : Int) (buf : Bytes) (offset : Int) : Except PyErr Bytes :=
+  if n < 0 then .error .structError else bufAt buf offset n.toNat
+
 /-- `xs[i] = x` for an index that `listGet` accepted (Python counts a negative index from the end) -/
 def listSet {α : Type} (xs : List α) (i : Int) (x : α) : List α :=
   let j : Int := if i < 0 then i + xs.length else i
